@@ -223,6 +223,10 @@ Loop-body reading (`emit_loop`, `Fn(..., loop_mode=True)`; added for C11, used b
 * `math.sqrt(e)` becomes the parameter `sqrt_<text of e>` (the double is an input of the models);
 * the parameters of a loop-body definition are listed in alphabetical order (not in order of first mention), so
   that reordering operands or independent statements keeps the signature.
+
+The C05 growth branch extended this reader in ways that conflicted textually with the other branches; its variant is kept
+as `harness/exprtrans_c05.py` and used only by `extractors/exprs_ref.py` (reference.calculate_gc_lo, shift_sex_chroms,
+CopyNumArray.expect_flat_log2).
 """
 from __future__ import annotations
 
